@@ -133,10 +133,12 @@ func (v *authorizer) Authorize() error {
 		v.world.AddRule(r.convert(v.symbols))
 	}
 
+	// the world now holds the token's facts and rules: it must not be
+	// serialized any more, whether or not the evaluation below succeeds
+	v.dirty = true
 	if err := v.world.Run(v.symbols); err != nil {
 		return err
 	}
-	v.dirty = true
 
 	var errs []error
 
@@ -275,10 +277,10 @@ func (v *authorizer) Authorize() error {
 }
 
 func (v *authorizer) Query(rule Rule) (FactSet, error) {
+	v.dirty = true
 	if err := v.world.Run(v.symbols); err != nil {
 		return nil, err
 	}
-	v.dirty = true
 
 	facts := v.world.QueryRule(rule.convert(v.symbols), v.symbols)
 
